@@ -1,0 +1,32 @@
+//go:build verif
+
+package task
+
+import (
+	"context"
+
+	"github.com/AliceO2Group/Control/core/controlcommands"
+	"github.com/mesos/mesos-go/api/v1/lib/scheduler/calls"
+	"github.com/mesos/mesos-go/api/v1/lib/scheduler/events"
+)
+
+// VerifCommandLoop wires the control-command path of the scheduler exactly as NewScheduler does
+// (servent -> sendCommand -> Mesos caller, command queue on top) around the given Mesos caller and
+// returns the started command queue together with the scheduler's handler for incoming MESSAGE
+// events. Messages for the task manager produced by the handler are discarded. Verification only.
+func VerifCommandLoop(cli calls.Caller) (*controlcommands.CommandQueue, events.HandlerFunc) {
+	state := &schedulerState{cli: cli}
+	state.taskman = &Manager{MessageChannel: make(chan *TaskmanMessage, 1024)}
+	go func() {
+		for range state.taskman.MessageChannel {
+		}
+	}()
+	state.servent = controlcommands.NewServent(
+		func(command controlcommands.MesosCommand, receiver controlcommands.MesosCommandTarget) error {
+			return state.sendCommand(context.Background(), command, receiver)
+		},
+	)
+	state.commandqueue = controlcommands.NewCommandQueue(state.servent)
+	state.commandqueue.Start()
+	return state.commandqueue, state.incomingMessageHandler()
+}
